@@ -341,5 +341,26 @@ def write_evidence(prop: str, tier: str, level: str, coverage: dict, assumptions
     (EVIDENCE / f"{prop}.json").write_text(json.dumps(body, indent=1, default=str))
 
 
-def rng_for(prop: str) -> random.Random:
-    return random.Random(f"{prop}-{seed()}")
+def rng_for(prop: str, stream: int = 0) -> random.Random:
+    return random.Random(f"{prop}-{seed()}" + (f"-{stream}" if stream else ""))
+
+
+def pins_changed(prop: str) -> list[str]:
+    """anchored source files of the property whose AST differs from the pinned digest (tools/mkpins.py)"""
+    import ast
+
+    p = VERIF / "pins.json"
+    if not p.exists():
+        return []
+    data = json.loads(p.read_text())
+    if data.get("python") != list(sys.version_info[:2]):
+        return []  # ast.dump differs between interpreter versions: no information
+    changed = []
+    for f in data.get("anchors", {}).get(prop, []):
+        try:
+            d = hashlib.sha256(ast.dump(ast.parse((REPO / f).read_text())).encode()).hexdigest()[:16]
+        except Exception as e:  # noqa: BLE001
+            d = f"unreadable:{type(e).__name__}"
+        if data["files"].get(f) != d:
+            changed.append(f)
+    return changed
